@@ -242,6 +242,8 @@ func enumerate(tier string) []caseSpec {
 	enumeratePaths(tier, add)
 	// every method with its own request/response pair, over messages that share names
 	enumerateMTypes(tier, add)
+	// the names of package, services and methods drawn from one alphabet of related identifiers
+	enumerateNames(tier, add)
 	if tier != "thorough" {
 		return cases
 	}
@@ -602,6 +604,7 @@ func main() {
 	crossCases, subsumed := 0, 0
 	fileSeqs, pathPairs := map[string]bool{}, map[string]bool{}
 	mtypesCases, mtypesAssignments := 0, map[string]bool{}
+	namesCases, namesRelations := 0, map[string]bool{}
 
 	// the plugin runs in parallel; the oracle consumes the outcomes in enumeration order
 	const chunk = 1024
@@ -650,6 +653,10 @@ func main() {
 			if o.c.Kind == "mtypes" && st.Methods > 0 {
 				mtypesCases++
 				mtypesAssignments[o.c.shapeKey()] = true
+			}
+			if o.c.Kind == "names" && (st.Methods > 0 || st.Registrations > 0) {
+				namesCases++
+				namesRelationSet(o.c, namesRelations)
 			}
 			if o.c.MainPath != "" || o.c.DepPath != "" {
 				pathPairs[o.c.mainPath()+" <- "+o.c.depPath()] = true
@@ -711,11 +718,12 @@ func main() {
 	code = rep.Finish("exploration", map[string]interface{}{
 		"evaluations":         evals,
 		"distinct_nontrivial": len(distinct),
-		"rule": "a case (= one CodeGeneratorRequest: services x method-kind sequences x naming x proto package x request/response type source x dep placement x proto paths of the generated and the imported file x option string; or a sequence of file kinds x Go package layout x option string; or services x methods, each a (kind, request message, response message) triple, x proto package x option string) is non-trivial when the plugin emitted a file in which at least one RegisterHandler function or legacy client method was located and compared with the model (or, for an invalid option string, when the plugin answered at all; or, for a file-kind sequence, when the set of emitted files was compared with the set of files that declare a service, which for a sequence of message-only files is the comparison with the empty set); distinct by the full case key. " +
+		"rule": "a case (= one CodeGeneratorRequest: services x method-kind sequences x naming x proto package x request/response type source x dep placement x proto paths of the generated and the imported file x option string; or a sequence of file kinds x Go package layout x option string; or services x methods, each a (kind, request message, response message) triple, x proto package x option string; or proto package x services, each a name and a sequence of (kind, method name), x option string) is non-trivial when the plugin emitted a file in which at least one RegisterHandler function or legacy client method was located and compared with the model (or, for an invalid option string, when the plugin answered at all; or, for a file-kind sequence, when the set of emitted files was compared with the set of files that declare a service, which for a sequence of message-only files is the comparison with the empty set); distinct by the full case key. " +
 			"Every valid request is also judged on the set and the location of its output: exactly one file per file_to_generate that declares a service, at the name protoc-gen-go/-go-grpc give the same file under the same options (paths, module, M, import_path, go_package), none for a file without services, no error. " +
 			"File-kind dimension (both tiers): all 85 sequences of length 1..3 in file_to_generate over {S: service over own messages, M: messages only, I<t>: service over the messages of file t}, t ranging over every S or M file of the sequence and a file of the request that is not generated (39 kind orders x choices of t), x {one Go package for all files, one per file} x 8-9 option strings that decide packages and output names (none, legacy_stubs, import_path, module, paths=source_relative, M for the first / the last / all files to one package / all files to distinct packages); thorough x {camel, snake}. " +
 			"Proto path dimension: a 15-path alphabet + the default path, for the generated file and for the file its types are imported from (no directory, lower-case m, capital M / MM as directory, as file name and as prefix of another path of the alphabet, nested directories, '-' '.' '_' and digits, .protodevel, option names as path elements); quick: every path for either file with the other at its default x 12 option strings (M for the generated file with and without package name, for the imported file, for both, both to one package, with import_path, with paths=source_relative, with module; legacy_stubs on and off) x 5 file relations (imported file not generated; generated too, both orders of file_to_generate; same Go package; part of the request but unused) x 3 service shapes ({U,SS}, {BD}, no methods), + every ordered pair of distinct paths x {M for the generated, the imported, both files}; thorough: every ordered pair x everything (requests in which two generated files would get one output name are not members). " +
 			"Per-method type dimension (kind mtypes): every method has its own (request, response) pair over an 8-message alphabet in which different messages share their simple name and some their Go name (Msg: top-level, nested in Get, nested in List, imported from another proto/Go package; Empty: google.protobuf.Empty and a local message; Other: local and imported); oracle as everywhere: the emitted file type-checks against the protoc-gen-go/-go-grpc declarations, whose method signatures name each method's own types, + path, call shape, stream index. quick (6 letters: Msg x4, Empty x2), package p, legacy_stubs: every ordered pair of unary methods x all 6^4 assignments x {one service, two services}; all 16 ordered kind pairs x {both echo, same request T and responses 6^2, same response T and requests 6^2} x {one, two services}; every triple of echo unary methods as one and as three services; echo unary pairs x {none, descnames, import_path, M main, M dep, M both}. thorough: the same with all 8 letters, the triples with every split into services and a streaming method in the middle, + over the 6 letters: all 16 kind pairs x all 6^4 assignments as one service; unary pairs x all 6^4 assignments for the packages a.b.c and none; {p, a.b.c, no package} x 7 option strings x the echo / same-request / same-response unary pairs. " +
+			"Name dimension (kind names): the proto package, the service names and the method names are drawn from one alphabet of identifiers related to each other in every way two names can be (identifier_alphabet: equal, proper prefix, proper suffix, repeated, one-letter prefix, unrelated, equal up to case, snake_case with a shared word; package_alphabet: none, unrelated, the name in lower case and capitalised as the whole package, as last component, as first of two, as proper prefix of a middle component, twice); oracle as everywhere (path \"/<full service name>/<method>\" computed from the model, call shape, stream index, registration function, type-check against the protoc-gen-go/-go-grpc declarations). quick (8 identifiers, 8 packages), legacy_stubs: every package x every service name x every method name x the 4 kinds as a one-method service; {p, Echo, a.Echo} x service {Echo, EchoAll, Get} x every ordered pair of distinct method names x kind pairs {(U,U), (SS,BD), (BD,U)}; {p, Echo, a.Echo} x every ordered pair of distinct service names, each with one method {Echo, EchoAll, Get} x {U, BD} x {legacy_stubs, +legacy_desc_names} and without options x {Echo} x {U}. thorough: 12 identifiers (+ digit suffix, all capitals, lowerCamel, snake_case with the word last) and 14 packages: the one-method grid, and over the quick alphabets for kind U also under legacy_desc_names and without options; the two-method grid over every package x kind pairs {(U,U), (SS,BD)}; the two-service grid over every package under legacy_stubs, and x {Echo} x {BD with legacy_desc_names, U without options}. Files for which protoc-gen-go/-go-grpc themselves would declare one Go identifier twice are not members. name_relations_covered lists the relations of a method name to its service name and to a component of its package that were compared. " +
 			"The option set is a fully crossed dimension: all 2^7 = 128 subsets of the options parseArgs understands {legacy_stubs, legacy_desc_names, paths, module, import_path, M..., debug} (one representative value per valued option; paths=source_relative, or paths=import when module is in the set, the rejected pair paths=source_relative+module being enumerated as 32 invalid strings), each with a companion (the protoc-gen-go/-go-grpc declarations the output is type-checked against) synthesised for that option set, i.e. declaring _<Svc>_serviceDesc exactly when legacy_desc_names is on. In a crossed group a finding is reported under the minimal option sets that show it (dropped when the same clause/detail was observed for the same descriptor under a proper subset; count in subsumed_findings). " +
 			"quick: the 128+32 option strings x (every kind sequence of length 0..2 as a single service, camel, package p, local types, M mapping the file) and x (every ordered pair of sequences <= 1 as a two-service file, snake, package a.b.c, imported types, M mapping both files); " +
 			"every kind sequence of length 0..3 as a single service x {camel,snake} x {p,a.b.c,no package} x {local, imported, Empty} with legacy_stubs (+ no options for local), two-service files for every ordered pair of sequences <= 2 and every (<=3, <=1)/(<=1, <=3) pair, requests generating two files (dependency in another/the same Go package) x both orders of file_to_generate x 9 package/output-name options (import_path, module, paths, M...) with an order-invariance comparison of output names, package clauses and import sets, + regeneration. " +
@@ -742,10 +750,15 @@ func main() {
 		"per_method_type_cases":             mtypesCases,
 		"per_method_type_assignments":       len(mtypesAssignments),
 		"message_alphabet":                  msgAlphabet,
+		"name_cases":                        namesCases,
+		"name_relations_covered":            sortedKeys(namesRelations),
+		"identifier_alphabet":               map[string][]string{"quick": identAlphabet, "thorough": identAlphabetThorough},
+		"package_alphabet":                  map[string][]string{"quick": pkgAlphabet, "thorough": pkgAlphabetThorough},
 		"samples":                           samples,
 		"exhaustive":                        exhaustive,
 	}, []string{
 		"the per-method type dimension is bounded at two methods per file (three for echo unary methods), camel names and the option strings that decide how a message type is qualified; it is not crossed with the proto path, file-kind and 128-option-subset dimensions",
+		"the name dimension is bounded at two methods or two services per file, one file per request, identifiers in CamelCase or lower snake_case (the styles for which the Go name is unambiguous), request/response messages with names unrelated to the alphabet (Req, Resp); it is crossed with the options that decide what the stubs contain (legacy_stubs, legacy_desc_names), not with the 128 option subsets, proto paths, file kinds or per-method types",
 		"the proto path and file-kind dimensions are swept around one base descriptor each (package p, camel names, service shapes named in the rule) and the option strings that decide Go packages and output names, not crossed with the 128 option subsets or with the method-kind sequences",
 		"a path named by an M option cannot contain ',' or '=' (protoc splits the parameter at ',', the option syntax at the first '='); such paths are outside the alphabet",
 		"output location: no reference exists, and none is demanded, when module= is given and the Go package of a file lies outside that module (protoc-gen-go rejects the request)",
